@@ -781,7 +781,7 @@ pub struct VCase {
 	pub s: CandleStream,
 }
 
-fn run(c: &VCase, st: &mut Stats) -> CaseResult {
+pub fn run(c: &VCase, st: &mut Stats) -> CaseResult {
 	let cfg = cfggen::instantiate(&c.cfg).map_err(|e| Failure::new("C05:generator", format!("{}: {e}", c.cfg.name)))?;
 	let name = c.cfg.name.as_str();
 	let cj = cfg.to_json();
@@ -845,6 +845,7 @@ pub fn def(tier: Tier) -> PropertyDef {
 		let strat = (cfggen::config_strategy(name, GenOpts { wide: false, price_sources: true, nonneg_ma: false }), gen::trend_candle_stream(tier.pick(1500, 5000))).prop_map(|(cfg, s)| VCase { cfg, s });
 		checks.push(pt(&format!("trend_values_{name}"), tier.pick(40, 200), strat, run));
 	}
+	checks.extend(crate::fuzz_entry::corpus_checks("C05"));
 	PropertyDef {
 		id: "C05",
 		level: "exploration",
